@@ -727,7 +727,7 @@ class Emit:
             args = ', '.join('%s %s' % (s.ctype(t), s.lv(pn) if pn else '') for t, pn, _ in f['params']) or 'void'
             if f['va']: args += ', ...'
             protos.append('%s %s(%s);' % (s.ctype(f['ret']), cname(n), args))
-            if f['blocks'] is None and not n.startswith('@vf_nondet'):
+            if f['blocks'] is None and not n.startswith('@vf_'):
                 s.stubs.append(n)
         for a, tgt in m.aliases.items():
             protos.append('#define %s %s' % (cname(a), cname(tgt)))
@@ -782,6 +782,8 @@ class Emit:
                '#endif',
                'static void *ll2c_new(size_t n) { void *p = malloc(n); __CPROVER_assume(p != 0); return p; }',
                'static void __cxa_pure_virtual(void) { __CPROVER_assert(0, "ll2c: pure virtual call"); __CPROVER_assume(0); }',
+               'static uint64_t ll2c_ctlz(uint64_t x, int w) { uint64_t n = 0; if (w < 64) x <<= (64 - w); if (x == 0) return (uint64_t)w; if (!(x >> 32)) { n += 32; x <<= 32; } if (!(x >> 48)) { n += 16; x <<= 16; } if (!(x >> 56)) { n += 8; x <<= 8; } if (!(x >> 60)) { n += 4; x <<= 4; } if (!(x >> 62)) { n += 2; x <<= 2; } if (!(x >> 63)) { n += 1; } return n; }',
+               'static uint64_t ll2c_cttz(uint64_t x, int w) { uint64_t n = 0; if (x == 0) return (uint64_t)w; if (!(x & 0xffffffffull)) { n += 32; x >>= 32; } if (!(x & 0xffff)) { n += 16; x >>= 16; } if (!(x & 0xff)) { n += 8; x >>= 8; } if (!(x & 0xf)) { n += 4; x >>= 4; } if (!(x & 3)) { n += 2; x >>= 2; } if (!(x & 1)) { n += 1; } return n; }',
                'static size_t ll2c_strlen(const uint8_t *s) { size_t n = 0; while (s[n]) n++; return n; }']
         return '\n'.join(hdr + types + s.typedefs + gl_decl + protos + gl_def + dc + st + body) + '\n'
 
@@ -1014,7 +1016,7 @@ class Emit:
             while p.peek()[1] in ('nsw', 'nuw', 'exact', 'fast', 'nnan', 'ninf', 'nsz', 'arcp', 'contract', 'afn', 'reassoc'): flags.add(p.next()[1])
             t, a = p.tval(); p.expect(','); bv = p.val(t)
             pre = ''
-            if s.opts.get('overflow') and 'nsw' in flags and op in ('add', 'sub', 'mul') and s.resolve(t).w <= 32:
+            if s.opts.get('overflow') and 'nsw' in flags and op in ('add', 'sub', 'mul') and s.resolve(t).w <= 32 and re.match(r'@"?_ZZ?NK?8QtLogger', f['name']):
                 o = {'add': '+', 'sub': '-', 'mul': '*'}[op]
                 w = s.resolve(t).w
                 pre = '{ int64_t __r = (int64_t)%s %s (int64_t)%s; __CPROVER_assert(__r >= -(1LL<<%d) && __r < (1LL<<%d), "ll2c: signed overflow (%s nsw) in %s"); } ' % (
@@ -1132,6 +1134,8 @@ class Emit:
                 return setv(rt, '(%s %s %s ? %s : %s)' % (A[0], o, A[1], A[0], A[1]))
             if n.startswith('abs'): return setv(rt, s.mask(rt, '(%s < 0 ? -%s : %s)' % (s.sext_to_c(t, A[0]), s.sext_to_c(t, A[0]), s.sext_to_c(t, A[0]))))
             if n.startswith('expect'): return setv(rt, A[0])
+            if n.startswith('ctlz'): return setv(rt, s.mask(rt, 'll2c_ctlz((uint64_t)%s, %d)' % (A[0], s.resolve(t).w)))
+            if n.startswith('cttz'): return setv(rt, s.mask(rt, 'll2c_cttz((uint64_t)%s, %d)' % (A[0], s.resolve(t).w)))
             if n.startswith('trap'): return '__CPROVER_assert(0, "ll2c: llvm.trap"); __CPROVER_assume(0);'
             raise NotImplementedError('intrinsic ' + n)
         A = ', '.join(V(t, v) for t, v in args)
